@@ -1,4 +1,5 @@
 import collections
+import itertools
 import typing as tp
 
 from cirbo.core.circuit import (
@@ -157,19 +158,19 @@ def _process_nor(cnf: CnfRaw, top_lit: Lit, lits: list[Lit]):
 
 
 def _process_xor(cnf: CnfRaw, top_lit: Lit, lits: list[Lit]):
-    a, b, c = lits[0], lits[1], top_lit
-    cnf.append([-a, -b, -c])
-    cnf.append([-a, b, c])
-    cnf.append([a, -b, c])
-    cnf.append([a, b, -c])
+    # one clause per sign pattern: it excludes the operand values falsifying
+    # all `sign * lit` together with the wrong value of `top_lit`.
+    for signs in itertools.product((-1, 1), repeat=len(lits)):
+        clause = [sign * lit for sign, lit in zip(signs, lits)]
+        clause.append(top_lit if signs.count(-1) % 2 else -top_lit)
+        cnf.append(clause)
 
 
 def _process_nxor(cnf: CnfRaw, top_lit: Lit, lits: list[Lit]):
-    a, b, c = lits[0], lits[1], top_lit
-    cnf.append([-a, -b, c])
-    cnf.append([-a, b, -c])
-    cnf.append([a, -b, -c])
-    cnf.append([a, b, c])
+    for signs in itertools.product((-1, 1), repeat=len(lits)):
+        clause = [sign * lit for sign, lit in zip(signs, lits)]
+        clause.append(-top_lit if signs.count(-1) % 2 else top_lit)
+        cnf.append(clause)
 
 
 def _process_gt(cnf: CnfRaw, top_lit: Lit, lits: list[Lit]):
